@@ -16,7 +16,7 @@ MANIFEST = {
         "design_ref": "DESIGN.md 3/C02",
     }
 }
-PROPS = ["Nstd.Hash.Props", "Nstd.Hash.PropsLink"]
+PROPS = ["Nstd.Hash.Props", "Nstd.Hash.PropsLink", "Nstd.Hash.PropsGen"]
 LEAN_TARGETS = PROPS + ["drv_hash"]
 DRIVER = "drv_hash"
 SOURCES = ["hash.cpp", C.REPO / "src/Memory.cpp", C.REPO / "src/String.cpp"]
